@@ -279,6 +279,18 @@ func C13(c *core.Ctx) {
 		}
 		c.Ob("R5/snps/numeric-position-order", strings.Join(order, ",") == "A9C,A10T,A100G", funcPos(c, "pkg/snps", "aggregateWriteOutput"), "positions 9, 10, 100 are written in the order %v", order)
 	}
+	// ... also for the SNPs --hard-gaps reports, whose reference or query symbol is '-' or '?' (the position is what stands
+	// between the first and the last character, whatever those are)
+	if agg, err := evalAggregateSNPs(c, false, [][]string{{"C2T", "-3A", "?6-", "G7-", "T12-", "C14G"}, {"T12-", "C2T"}}, 0); err == nil {
+		lines, _ := parseAggregate(agg, "SNP,frequency\n")
+		order := []string{}
+		for _, l := range lines {
+			order = append(order, l[0])
+		}
+		c.Ob("R5/snps/numeric-position-order-with-gap-symbols", strings.Join(order, ",") == "C2T,-3A,?6-,G7-,T12-,C14G", funcPos(c, "pkg/snps", "aggregateWriteOutput"), "positions 2, 3, 6, 7, 12, 14 are written in the order %v", order)
+	} else {
+		c.Und("R5/snps/numeric-position-order-with-gap-symbols", funcPos(c, "pkg/snps", "aggregateWriteOutput"), "cannot evaluate: %v", err)
+	}
 	c13Variants(c)
 }
 
